@@ -83,7 +83,8 @@ def image(ctx, shape, spacing, seed, dtype='float64', optics=None, name=None,
         shp = shp + [len(channels)]
     arr = offset + scale * rs.standard_normal(shp)
     if np.dtype(dtype).kind in 'ui':
-        arr = np.clip(np.round(arr * 100), 0, np.iinfo(dtype).max)
+        arr = np.clip(np.round(128 + 40 * rs.standard_normal(shp)), 0,
+                      min(np.iinfo(dtype).max, 60000))
     arr = arr.astype(dtype)
     kw = optics_kwargs(ctx, optics)
     return data_grid(arr, spacing=val(ctx, spacing), name=name,
